@@ -1,0 +1,18 @@
+// SPDX-FileCopyrightText: 2020-present Open Networking Foundation <info@opennetworking.org>
+//
+// SPDX-License-Identifier: Apache-2.0
+
+//go:build verif
+// +build verif
+
+package mastership
+
+import (
+	"github.com/onosproject/onos-config/pkg/store/topo"
+	configurationstore "github.com/onosproject/onos-config/pkg/store/v3/configuration"
+)
+
+// NewReconcilerForVerif builds the v3 mastership reconciler for the external verification harness
+func NewReconcilerForVerif(topo topo.Store, configurations configurationstore.Store) *Reconciler {
+	return &Reconciler{topo: topo, configurations: configurations}
+}
